@@ -67,6 +67,13 @@ func (t *ProcessorTask) Open(ctx context.Context) error {
 	t.logger.Debug(ctx).Msg("opening processor")
 	err := t.processor.Open(ctx)
 	if err != nil {
+		// Teardown needs to be called even if Open fails, same as in the
+		// default engine (stream.ProcessorNode.Run): the plugin is already
+		// dispensed and the processor instance is already marked as running,
+		// and nobody closes a task that failed to open.
+		if tdErr := t.processor.Teardown(ctx); tdErr != nil {
+			t.logger.Err(ctx, tdErr).Msg("could not tear down processor that failed to open")
+		}
 		return cerrors.Errorf("failed to open processor: %w", err)
 	}
 	t.logger.Debug(ctx).Msg("processor open")
